@@ -121,7 +121,8 @@ func symPath(label string, maxSegs, nameLen int, allowAbs bool) string {
 func unpackSegEntry(sName, sLink int) envTarEntry {
 	e := envTarEntry{}
 	e.Name = symPath("name", sName, 1, true)
-	e.Typeflag = unpackFlags[verif.Choose("type", 3)] // file, dir, symlink
+	// file, dir, symlink; with segTypes=4 also a PAX global header record
+	e.Typeflag = []byte{tar.TypeReg, tar.TypeDir, tar.TypeSymlink, tar.TypeXGlobalHeader}[verif.Choose("type", verif.Param("segTypes", 3))]
 	if e.Typeflag == tar.TypeSymlink {
 		e.Linkname = symPath("link", sLink, 1, true)
 	}
